@@ -353,10 +353,25 @@ func propC15(t *rapid.T) {
 			{"slog.Wrapper(Info)", zapcore.InfoLevel, func() c15Site { x := here(0); c15SlogHelper(h.Handler(), slog.LevelInfo); return x }},
 			{"slog.Wrapper2(Warn)", zapcore.WarnLevel, func() c15Site { x := here(0); c15SlogHelper2(h.Handler(), slog.LevelWarn); return x }},
 		}
-	} else if sg != nil {
-		fronts = c15SugarFronts(sg.WithOptions(zap.AddCallerSkip(skip-skipEarly)), skip, lvl)
 	} else {
-		fronts = c15LoggerFronts(lg.WithOptions(zap.AddCallerSkip(skip-skipEarly)), skip, lvl)
+		// the remaining skip is added in one step, or (wrappers composed the other way round) a skip is first TAKEN
+		// BACK and then re-added with the rest: caller skips are plain arithmetic, the sum is what counts
+		rest := []zap.Option{zap.AddCallerSkip(skip - skipEarly)}
+		if back := rapid.IntRange(0, 3).Draw(t, "skipTakenBackFirst"); back > 0 {
+			rest = []zap.Option{zap.AddCallerSkip(-(skipEarly + back)), zap.AddCallerSkip(skip + back)}
+			if rapid.Bool().Draw(t, "separateWithOptionsCalls") {
+				if sg != nil {
+					sg, rest = sg.WithOptions(rest[0]), rest[1:]
+				} else {
+					lg, rest = lg.WithOptions(rest[0]), rest[1:]
+				}
+			}
+		}
+		if sg != nil {
+			fronts = c15SugarFronts(sg.WithOptions(rest...), skip, lvl)
+		} else {
+			fronts = c15LoggerFronts(lg.WithOptions(rest...), skip, lvl)
+		}
 	}
 	fr := fronts[rapid.IntRange(0, len(fronts)-1).Draw(t, "frontEnd")]
 	if lvl < zapcore.DebugLevel || lvl > zapcore.FatalLevel {
